@@ -51,6 +51,14 @@ func c04Keys(c *fw.Case, n int) {
 			k = k.WithNonce(r, fw.Pick(r, []int{16, 1, 32}))
 		}
 		j := k.JWK()
+		if i%6 == 5 {
+			// RSA-shaped key model: members n / e / nonce next to empty crv, x, y ("n" is a prefix of "nonce")
+			j = map[string]interface{}{"kty": "RSA", "crv": "", "x": "", "y": "", "n": oracle.B64(r.Bytes(64)), "e": "AQAB"}
+			if nonce {
+				j["nonce"] = k.Nonce
+			}
+			typ = "RSA"
+		}
 		x, y := k.XY()
 		lz := 0
 		if len(x) > 0 && x[0] == 0 {
@@ -177,6 +185,16 @@ func c04Chain(c *fw.Case) {
 		b := spec.Build(r)
 		seq += kind[:1]
 		sample = append(sample, kind)
+		// the same request under a parser whose maximum operation size equals its length exactly
+		if i == 0 {
+			tight := sut.Proto()
+			tight.MaxOperationSize = uint(len(b.Request))
+			if rv2, err := sut.SharedStack(tight).Parser.GetRevealValue(b.Request); err != nil {
+				c.Failf("reveal-error-at-size-limit", map[string]interface{}{"request": string(b.Request), "MaxOperationSize": len(b.Request), "err": err.Error()}, "GetRevealValue fails when the operation is exactly MaxOperationSize bytes: %v", err)
+			} else {
+				_ = rv2
+			}
+		}
 		rv, err := st.Parser.GetRevealValue(b.Request)
 		c.Evals(2)
 		c.Count("chain-links", 1)
